@@ -17,7 +17,9 @@ namespace c04
     {
       Index nb;
       if(e < sizeof(L) / sizeof(L[0])) nb = L[e];
-      else nb = gen_len(c.rng, true, gran.size() <= 3);
+      // (empty leaves are kept rare: on a tree where min/max of a vector with an empty leaf crashes every such case costs
+      //  a worker restart)
+      else nb = c.rng.coin(0.015) ? Index(0) : gen_len(c.rng, false, gran.size() <= 3);
       if(nb == 0) { all_nonempty = false; some_empty = true; }
       shape.push_back(nb * Index(gran[i]));
     }
